@@ -21,6 +21,20 @@ for crate, f in fx.items():
             fns[strip_generics(b["path"])] = {"sig": fn_signature(b), "callees": fn_fingerprint(b), "trait": bool(b.get("impl_trait") or b.get("in_trait"))}
     for a in f["adts"]:
         adts[strip_generics(a["path"])] = adt_shape(a)
+# pinned callers of every function (used when a function of the pin has been inlined into its caller and deleted)
+callers = {}
+for crate, f in fx.items():
+    for b in f["bodies"]:
+        me = strip_generics(b.get("root") or b["path"]) if b["kind"] == "Closure" else strip_generics(b["path"])
+        for blk in b["blocks"]:
+            t = blk["term"]
+            if t.get("k") == "call":
+                fu = t.get("func") or {}
+                c = fu.get("resolved") if fu.get("resolved_local") else (fu.get("fn") if fu.get("fn_local") else None)
+                if c:
+                    callers.setdefault(strip_generics(c), set()).add(me)
+for k, v in fns.items():
+    v["callers"] = sorted(callers.get(k, ()))
 head = subprocess.run(["git", "-C", "/repo", "rev-parse", "HEAD"], stdout=subprocess.PIPE, text=True).stdout.strip()
 json.dump({"repo_commit": head, "functions": sorted(fns), "fn_info": fns, "adts": adts}, open(os.path.join(V, "sa", "known_fns.json"), "w"), indent=0, sort_keys=True)
 print(len(fns), "functions,", len(adts), "ADTs at", head)
